@@ -51,6 +51,13 @@ def rand_value(rng, width, labels):
         return ('label', n, k), t, 'label'
     if r < 0.85:
         c = rng.choice(PLAIN + [',', ',', ' ', ';', ':'])
+        if rng.random() < 0.3:
+            # a character literal with an operator right behind it (every binary operator, with and without blanks)
+            op, k = rng.choice([('+', 1), ('-', 1), ('*', 2), ('<<', 1), ('>>', 1), ('&', 0x5F), ('|', 0x20), ('^', 1), ('%', 7), ('/', 2)])
+            v = {'+': ord(c) + k, '-': ord(c) - k, '*': ord(c) * k, '<<': ord(c) << k, '>>': ord(c) >> k, '&': ord(c) & k,
+                 '|': ord(c) | k, '^': ord(c) ^ k, '%': ord(c) % k, '/': ord(c) // k}[op]
+            sp = rng.choice(['', '', ' '])
+            return v, f"'{c}'{sp}{op}{sp}{k}", 'char'
         return ord(c), f"'{c}'", 'char'
     v = rng.randrange(0, 1 << bits)
     return v, lit(rng, v), 'plain'
@@ -109,9 +116,9 @@ class C11(core.Check):
         'string:.byte', 'string:.cstr', 'string:.asciiz', 'string:embedded', 'string:empty', 'terminator:0',
         'terminator:nonzero', 'fill:count-0', 'fill:count-1', 'fill:count-many', 'fill:value-negative', 'fill:value->255',
         'zero:count-0', 'zero:count-many', 'zerountil:below', 'zerountil:just-below', 'zerountil:at', 'zerountil:above',
-        'zero-byte-under-nonzero-image-fill', 'value:char-first-in-list', 'value:char-comma']}
+        'zero-byte-under-nonzero-image-fill', 'value:char-first-in-list', 'value:char-comma', 'value:char-first-then-operator']}
 
-    def build(self, rng, force=None, charfirst=False, fillopt=None):
+    def build(self, rng, force=None, charfirst=False, fillopt=None, i_cf=0):
         endian = rng.choice(['big', 'little'])
         term = rng.choice([0, 0, 0, 10, 13, 255, rng.randrange(0, 256)])
         emb = rng.random() < 0.5
@@ -145,6 +152,12 @@ class C11(core.Check):
                     if charfirst and j == 0:
                         ch = rng.choice(PLAIN + [',', ','])
                         v, t, c = ord(ch), f"'{ch}'", 'char'
+                        if i_cf % 2:
+                            op, k = [('<<', 1), ('>>', 1), ('+', 1), ('-', 1), ('*', 2), ('&', 0x5F), ('|', 0x20), ('^', 1), ('%', 7), ('/', 2)][(i_cf // 2) % 10]
+                            v = {'+': ord(ch) + k, '-': ord(ch) - k, '*': ord(ch) * k, '<<': ord(ch) << k, '>>': ord(ch) >> k, '&': ord(ch) & k,
+                                 '|': ord(ch) | k, '^': ord(ch) ^ k, '%': ord(ch) % k, '/': ord(ch) // k}[op]
+                            t = f"'{ch}'{op}{k}"
+                            extra_cls.add('char-first-then-operator')
                     if c == 'char' and t == "','":
                         extra_cls.add('char-comma')
                     if c == 'char' and j == 0 and cnt > 1:
@@ -246,7 +259,7 @@ class C11(core.Check):
         # text between the first and the last quote as a string)
         for i in range(40 if tier == 'quick' else 400):
             rng = core.rng_for(0 if i < 20 else seed, self.pid, 'charfirst', i)
-            c = self.build(rng, [0.1], charfirst=True)
+            c = self.build(rng, [0.1], charfirst=True, i_cf=i)
             c['tags'] = ['charfirst-program']
             yield c
 
